@@ -1315,36 +1315,44 @@ impl IndexManager {
         }
     }
 
-    /// Manager holding one bucket with the given sorted section and an update section produced
-    /// by appending `updates` in order (pre-state of the inductive-step harnesses).
-    pub fn verif_from_parts(bucket: u8, sorted: Vec<IndexEntry>, updates: Vec<UpdateEntry>) -> Self {
-        let mut update_section = UpdateSection::new();
-        for u in updates {
-            update_section.append(u);
-        }
-        let mut indices = OneBucketMap::new();
-        indices.insert(
-            bucket,
-            IndexFile {
-                header: IndexHeader {
-                    data_size: 16,
-                    data_hash: 0,
-                    version: 7,
-                    bucket,
-                    unused: 0,
-                    length_size: 4,
-                    location_size: 5,
-                    key_size: 9,
-                    segment_bits: 30,
-                },
-                entries: sorted,
-                update_section,
+    /// Empty index file of a bucket (what `add_entry` creates for a new bucket).
+    fn verif_empty_file(bucket: u8) -> IndexFile {
+        IndexFile {
+            header: IndexHeader {
+                data_size: 16,
+                data_hash: 0,
+                version: 7,
+                bucket,
+                unused: 0,
+                length_size: 4,
+                location_size: 5,
+                key_size: 9,
+                segment_bits: 30,
             },
-        );
-        Self {
-            indices,
-            base_path: PathBuf::new(),
+            entries: Vec::new(),
+            update_section: UpdateSection::new(),
         }
+    }
+
+    /// Manager holding one bucket with the given sorted section and an update section produced
+    /// by appending `updates` in order (pre-state of the inductive-step harnesses). The sections
+    /// are filled in place, after the file sits in the map (keeps the shapes visible to the
+    /// model checker).
+    pub fn verif_from_parts(bucket: u8, sorted: Vec<IndexEntry>, updates: Vec<UpdateEntry>) -> Self {
+        let mut mgr = Self {
+            indices: OneBucketMap::new(),
+            base_path: PathBuf::new(),
+        };
+        mgr.indices.insert(bucket, Self::verif_empty_file(bucket));
+        if let Some(index) = mgr.indices.get_mut(&bucket) {
+            for e in sorted {
+                index.entries.push(e);
+            }
+            for u in updates {
+                index.update_section.append(u);
+            }
+        }
+        mgr
     }
 
     /// `search_both_sections` on a free-standing index file (sorted section + update section
@@ -1354,25 +1362,13 @@ impl IndexManager {
         updates: Vec<UpdateEntry>,
         search_key: &[u8; 9],
     ) -> Option<IndexEntry> {
-        let mut update_section = UpdateSection::new();
-        for u in updates {
-            update_section.append(u);
+        let mut file = Self::verif_empty_file(0);
+        for e in sorted {
+            file.entries.push(e);
         }
-        let file = IndexFile {
-            header: IndexHeader {
-                data_size: 16,
-                data_hash: 0,
-                version: 7,
-                bucket: 0,
-                unused: 0,
-                length_size: 4,
-                location_size: 5,
-                key_size: 9,
-                segment_bits: 30,
-            },
-            entries: sorted,
-            update_section,
-        };
+        for u in updates {
+            file.update_section.append(u);
+        }
         let r = Self::search_both_sections(&file, search_key);
         std::mem::forget(file);
         r
